@@ -238,6 +238,18 @@ def c19_jobs(tier, seed):
                          "switches": "sweepab", "pattern": "late_rebuild", "limit": (30 if not thorough else 1200), "offset": sh * 97 + seed, **s})
             jobs.append({"id": f"C19-w1-{name}-line{sh}", "world": wo, "scenario": name, "after": probes, "granularity": "line",
                          "switches": "sweep1", "limit": (15 if not thorough else 400), "offset": sh * 5 + seed, **s})
+    # three threads (sampled): first calls for three argument classes, and two equal ones against a third
+    w, probes = W1()
+    a, b = probes[0], probes[1]
+    c3 = probes[2]
+    for name, th in {"three_first_diff": {"A": a, "B": b, "C": c3}, "three_first_same2": {"A": a, "B": a, "C": b},
+                     "three_miss": {"A": a, "B": b, "C": a}}.items():
+        s = dict(threads=th, warm=([c3] if name == "three_miss" else []))
+        for sh in range(2 if not thorough else 16):
+            jobs.append({"id": f"C19-w1-{name}-hook3-{sh}", "world": w, "scenario": name, "after": probes, "granularity": "hook",
+                         "switches": "sample3", "limit": (40 if not thorough else 400), "offset": sh * 31 + seed, **s})
+            jobs.append({"id": f"C19-w1-{name}-line3-{sh}", "world": w, "scenario": name, "after": probes, "granularity": "line",
+                         "switches": "sample3", "limit": (30 if not thorough else 400), "offset": sh * 17 + seed, **s})
     # the same races when every caller first reads the function's signature (an overloaded function handed to a
     # Callable[[...], ...] parameter of another one is inspected on every call)
     w, probes = W1()
